@@ -46,6 +46,9 @@ _CMP = {
 }
 
 
+_GEN_CACHE = {}
+
+
 class _Break(Exception):
     pass
 
@@ -115,11 +118,29 @@ class Evaluator:
         for n in names:
             if n not in env:
                 raise Unsupported(f"missing argument {n} calling {finfo.fq}")
+        if self._is_generator(finfo):
+            outer, self.yields = self.yields, []
+            try:
+                self.block(node.body, env, finfo)
+            except _Return:
+                pass
+            mine, self.yields = self.yields, outer
+            self.yields.extend(mine)
+            return mine
         try:
             self.block(node.body, env, finfo)
         except _Return as r:
             return r.value
         return None
+
+    def _is_generator(self, finfo):
+        k = id(finfo.node)
+        g = _GEN_CACHE.get(k)
+        if g is None:
+            from .loader import walk_own
+
+            g = _GEN_CACHE[k] = any(isinstance(n, (ast.Yield, ast.YieldFrom)) for n in walk_own(finfo.node))
+        return g
 
     # -- statements ---------------------------------------------------------------
     def block(self, stmts, env, fi):
@@ -218,7 +239,7 @@ class Evaluator:
             except (_Return, _Break, _Continue):
                 self.block(s.finalbody, env, fi)
                 raise
-            except (Raised, KeyError, IndexError, TypeError, AttributeError, ValueError, ZeroDivisionError) as ex:
+            except (Raised, KeyError, IndexError, TypeError, AttributeError, ValueError, ZeroDivisionError, ImportError) as ex:
                 if isinstance(ex, Unsupported):
                     raise
                 name = getattr(ex, "exc_name", None) or type(ex).__name__
@@ -317,8 +338,16 @@ class Evaluator:
                 return self._modconsts[key]
             if e.id in _BUILTIN_TYPES:
                 return _BUILTIN_TYPES[e.id]
+            if e.id in ("len", "min", "max", "abs", "sorted", "sum", "any", "all", "repr", "id", "divmod", "round", "set", "frozenset"):
+                import builtins as _b
+
+                return getattr(_b, e.id)
             if e.id == "itertools":
                 return _itertools
+            if e.id in ("OrderedDict", "defaultdict", "namedtuple"):
+                import collections
+
+                return getattr(collections, e.id)
             if e.id in ("math", "operator", "functools"):
                 import importlib
 
@@ -420,7 +449,20 @@ class Evaluator:
         if isinstance(e, ast.Lambda):
             return Closure(e, dict(env), fi, env)
         if isinstance(e, ast.JoinedStr):
-            return "<fstring>"
+            parts = []
+            for v in e.values:
+                if isinstance(v, ast.Constant):
+                    parts.append(str(v.value))
+                elif isinstance(v, ast.FormattedValue):
+                    try:
+                        val = self.expr(v.value, env, fi)
+                    except Unsupported:
+                        val = "<?>"
+                    if isinstance(val, (str, int, float, bool, tuple, list, dict, type(None))) and v.format_spec is None:
+                        parts.append(repr(val) if v.conversion == 114 else str(val))
+                    else:
+                        parts.append("<value>")
+            return "".join(parts)
         if isinstance(e, ast.Yield):
             self.yields.append(None if e.value is None else self.expr(e.value, env, fi))
             return None
@@ -459,7 +501,7 @@ class Evaluator:
                 yield from self.comp(elt, gens[1:], env, fi)
 
     def getattr(self, v, attr, fi):
-        from .loader import ClassInfo
+        from .loader import ClassInfo, FuncInfo
 
         if isinstance(v, Obj) and attr == "__class__":
             return v.cls
@@ -477,6 +519,8 @@ class Evaluator:
             if attr in v.fields:
                 return v.fields[attr]
             raise Unsupported(f"attribute {attr} on {v.cls.name}")
+        if isinstance(v, FuncInfo) and attr == "dispatch" and self._is_generic(v):
+            return lambda c, _f=v: (lambda *a, _impl=self.dispatch(_f, c), **k: self.call(_impl, list(a), k))
         if isinstance(v, ClassInfo):
             if attr == "__name__":
                 return v.name
@@ -510,7 +554,12 @@ class Evaluator:
                 args.extend(self.expr(a.value, env, fi))
             else:
                 args.append(self.expr(a, env, fi))
-        kwargs = {k.arg: self.expr(k.value, env, fi) for k in e.keywords if k.arg}
+        kwargs = {}
+        for k in e.keywords:
+            if k.arg:
+                kwargs[k.arg] = self.expr(k.value, env, fi)
+            else:
+                kwargs.update(self.expr(k.value, env, fi))
         # builtins by name (only when not shadowed)
         if isinstance(e.func, ast.Name) and e.func.id not in env:
             n = e.func.id
@@ -608,6 +657,8 @@ class Evaluator:
         from .loader import ClassInfo, FuncInfo
 
         if isinstance(f, FuncInfo):
+            if args and isinstance(args[0], Obj) and self._is_generic(f):
+                f = self.dispatch(f, args[0].cls)
             return self.call(f, args, kwargs)
         if isinstance(f, tuple) and f and f[0] == "bound":
             if f[2] is None and f[1].cls is not None and not f[1].is_static and not f[1].is_classmethod and args:
@@ -625,6 +676,23 @@ class Evaluator:
         if callable(f) and not isinstance(f, (ClassInfo, FuncInfo)):
             return f(*args, **kwargs)
         raise Unsupported(f"call of {f!r} in {fi.fq}")
+
+    def _is_generic(self, f):
+        return any("singledispatch" in src(d) for d in f.node.decorator_list)
+
+    def dispatch(self, f, cls):
+        """functools.singledispatch: the implementation registered for the nearest class in cls's MRO"""
+        regs = {}
+        for mod in self.prog.modules.values():
+            for (gen, cls_src, impl) in mod.dispatch_regs:
+                if self.prog.resolve_name(mod, gen) is f:
+                    c = self.prog.resolve_name(mod, cls_src)
+                    if c is not None:
+                        regs[c] = impl
+        for c in self.prog.mro(cls):
+            if c in regs:
+                return regs[c]
+        return f
 
     def call_closure(self, c, args, kwargs):
         node = c.node
@@ -708,7 +776,7 @@ def _load(t):
     return t2
 
 
-_BUILTIN_TYPES = {"int": int, "tuple": tuple, "str": str, "bool": bool, "float": float, "dict": dict, "list": list}
+_BUILTIN_TYPES = {"slice": slice, "int": int, "tuple": tuple, "str": str, "bool": bool, "float": float, "dict": dict, "list": list}
 
 
 def _default_isinstance(v, t):
